@@ -121,6 +121,12 @@ def decide(pc, obl, rlimit=None, timeout_ms=None):
             STATS["unsat"] += 1
             return "unsat", None, 0.0
     t = time.time()
+    if _abstract_unsat(pc, neg):
+        dt = time.time() - t
+        STATS["time"] += dt
+        STATS["unsat"] += 1
+        STATS["abstract_unsat"] = STATS.get("abstract_unsat", 0) + 1
+        return "unsat", None, dt
     names = set()
     for b in list(pc) + [neg]:
         names |= {A.var_name(v) for v in b.vars()}
@@ -129,6 +135,56 @@ def decide(pc, obl, rlimit=None, timeout_ms=None):
     STATS["time"] += dt
     STATS[r] = STATS.get(r, 0) + 1
     return r, env, dt
+
+
+def _abs_atom(b, table):
+    """z3 term of atom b with every distinct non-constant polynomial shape h (leading coefficient 1) replaced by an opaque real variable:
+    p - q = c0 + a*h  ->  c0 + a*v_h.  Forgetting the relations between different polynomials only ADDS models, so unsat is sound."""
+    op, p, q = b.a
+    d = p - q
+    c0 = d.t.get((), Fraction(0))
+    h = A.Poly({m: c for m, c in d.t.items() if m})
+    if not h.t:
+        e = z3.RealVal(0)
+        a = Fraction(0)
+    else:
+        nv = len(A._names)
+        lead = h.t[max(h.t, key=lambda m: A._MKey(m, nv))]
+        hn = h.scale(1 / lead)
+        k = hn.key()
+        v = table.get(k)
+        if v is None:
+            v = table[k] = z3.Real("abs!%d" % len(table))
+        e = z3.Q(lead.numerator, lead.denominator) * v
+    e = e + z3.Q(c0.numerator, c0.denominator)
+    return {"<": e < 0, "<=": e <= 0, "==": e == 0, "!=": e != 0}[op]
+
+
+def _abs_b(b, table):
+    k = b.k
+    if k == "c":
+        return z3.BoolVal(b.a)
+    if k == "p":
+        return _abs_atom(b, table)
+    if k == "and":
+        return z3.And([_abs_b(x, table) for x in b.a])
+    if k == "or":
+        return z3.Or([_abs_b(x, table) for x in b.a])
+    return z3.Not(_abs_b(b.a, table))
+
+
+def _abstract_unsat(pc, neg):
+    """cheap first stage (linear arithmetic over opaque polynomial shapes + the boolean structure)"""
+    try:
+        table = {}
+        sv = z3.Solver()
+        sv.set("timeout", 5000)
+        for b in pc:
+            sv.add(_abs_b(b, table))
+        sv.add(_abs_b(neg, table))
+        return str(sv.check()) == "unsat"
+    except Exception:
+        return False
 
 
 def smt2_script(pc, obl):
